@@ -4,6 +4,8 @@ import ParryModel.C11.Theorems2
 import ParryModel.C11.Theorems3
 import ParryModel.C11.Theorems4
 import ParryModel.C11.Theorems5
+import ParryModel.C11.Theorems6
+import ParryModel.C11.Theorems7
 /-!
 # C11 property theorems: TriMesh derived data always match the buffers
 
